@@ -339,6 +339,45 @@ def fCheck (all final : List Rec) (r : FRep) : FRep :=
     else if acc != enq.take acc.length then ffail r true s!"accepted from fetcher {st.1}: {acc}, enqueued: {enq}"
     else r) r
 
+/-! ### op `pullfuzz`: the pull model against the token machine on arbitrary (mostly malformed) token streams -/
+
+def lcg (s : Nat) : Nat := (s * 6364136223846793005 + 1442695040888963407) % 18446744073709551616
+
+def fuzzTok (s : Nat) : Tok × Nat :=
+  let s1 := lcg s; let s2 := lcg s1; let s3 := lcg s2; let s4 := lcg s3
+  let k := (s1 / 65536) % 9
+  let a : Int := Int.ofNat ((s2 / 65536) % 12)
+  let b : Int := Int.ofNat ((s3 / 65536) % 4)
+  let c := (s4 / 65536) % 3
+  let t : Tok := match k with
+    | 0 => .h2 a b c false (c * 5)
+    | 1 => .h2 a b (c + 1) true 7
+    | 2 => .r2 b 1 5
+    | 3 => .z2 7 ((List.range (c + 1)).map fun (i : Nat) => (Int.ofNat i, i, 5))
+    | 4 => .h1 (c % 2) a false
+    | 5 => .h1 1 a true
+    | 6 => .kv 3 4
+    | 7 => .zv 9 ((List.range (c + 1)).map fun (i : Nat) => (Int.ofNat i, i))
+    | _ => .cut
+  (t, s4)
+
+def fuzzToks : Nat → Nat → List Tok × Nat
+  | 0, s => ([], s)
+  | n + 1, s => let (t, s') := fuzzTok s; let (ts, s'') := fuzzToks n s'; (t :: ts, s'')
+
+/-- number of (stream, start offset, expired) triples on which the token machine does not desynchronise and the pull
+model gives another result (must be 0), and the number of such triples examined -/
+def pullFuzz : Nat → Nat → Nat → Nat → Nat × Nat
+  | 0, _, bad, seen => (bad, seen)
+  | n + 1, s, bad, seen =>
+    let (toks, s') := fuzzToks (lcg s % 8) (lcg s)
+    let (bad, seen) := [(0, false), (3, false), (6, true)].foldl (fun (acc : Nat × Nat) (p : Nat × Bool) =>
+      let a := readAll .fixed p.2 (Int.ofNat p.1) 100 toks
+      let b := Pull.readAll p.2 (Int.ofNat p.1) 100 toks
+      if a.2.2 == .desync then acc
+      else if a.1 == b.1 && a.2.1 == b.2.1 && a.2.2 == b.2.2 then (acc.1, acc.2 + 1) else (acc.1 + 1, acc.2 + 1)) (bad, seen)
+    pullFuzz n s' bad seen
+
 def variantOf (op : String) : Variant := if op.startsWith "legacy-" then .legacy else .fixed
 
 def step (line : String) : String :=
@@ -373,7 +412,13 @@ def step (line : String) : String :=
         | _, _, _, _ => "bad-op"
       else "bad-op"
     | some op, none =>
-      if op == "ftrace" then
+      if op == "pullfuzz" then
+        match fieldInt ws "seed", fieldInt ws "n" with
+        | some seed, some n =>
+          let (bad, seen) := pullFuzz n.toNat (seed.toNat * 7919 + 12345) 0 0
+          if seen == 0 then answer "nothing-examined" false else answer s!"mismatches={bad}" (bad == 0)
+        | _, _ => "bad-op"
+      else if op == "ftrace" then
         match (field ws "L").bind parseLayout, fieldInt ws "first", fieldInt ws "hwm",
               (field ws "T").map (fun t => (t.splitOn ";").map parseFTEv) with
         | some items, some first, some hwm, some evs =>
